@@ -81,6 +81,19 @@ CHECKS = {
              "is eventually run) is assumed",
         technique="Lean 4 invariants over an acceptor of hook/API event traces + deterministic simulation of the real runtime on a virtual clock",
         design="§5.0, §5 C04"),
+    "C06": dict(
+        text="Lean 4 theorems about photon::rwlock modelled on top of the mutex and condition-variable layers (its internal mutex and "
+             "condition variable are followed event by event; wait inside rwlock::lock owes the deferred unlock of the internal mutex): by "
+             "induction over all accepted traces, while a writer holds the lock nobody else holds it in any mode; a lock is granted only when "
+             "compatible with the current holders; a lock() that fails changes no holder set and leaves the caller out of the wait queue; a "
+             "quiescence point is accepted only if no free rwlock has parked waiters. Tied to the code by generated programs on the real "
+             "runtime on a virtual clock, grants and the real `state` word compared with the model's holder sets at every quiescence point; "
+             "an independent occupancy oracle supplies failing programs",
+        note="trusted: Lean kernel + 3 standard axioms; single vCPU; ONLY photon::rwlock is covered - qrwlock (lock-free fast path, needs "
+             "the multi-vCPU harness) is not modelled and that half of the property is not claimed; fairness among waiters (readers queue "
+             "behind a waiting writer) is exercised, not specified",
+        technique="Lean 4 inductive invariant over an acceptor of hook/API event traces + deterministic simulation of the real runtime",
+        design="§5 C06"),
     "C14": dict(
         text="Lean 4 theorems, for every vector shape (any number of elements, zero-length elements anywhere), every byte count and "
              "every destination shape, that each modelled operation equals its effect on the flat address sequence: sum, shrink_to, "
